@@ -20,7 +20,11 @@ fn payload(e: Box<dyn std::any::Any + Send>) -> String {
 #[tokio::main(flavor = "current_thread")]
 async fn main() {
     let mode = std::env::args().nth(1).unwrap_or_else(|| "hl".to_owned());
-    std::panic::set_hook(Box::new(|_| {}));
+    std::panic::set_hook(Box::new(|info| {
+        if std::env::var_os("LINEDRV_TRACE").is_some() {
+            eprintln!("PANIC {info}");
+        }
+    }));
     let shell = brush_core::Shell::builder().build().await.expect("shell");
     let stdin = std::io::stdin();
     let mut out = std::io::BufWriter::new(std::io::stdout().lock());
